@@ -272,7 +272,7 @@ def correspondence(prop, ctx, mod):
             def _one(i):
                 r = run_lines([VH, prop, "impl"], [ops[i]], env=env2, parallel=1, timeout=getattr(mod, "IMPL_TIMEOUT", 3600))
                 return r[0] if r else "not-run"
-            with ThreadPoolExecutor(max_workers=2) as ex:
+            with ThreadPoolExecutor(max_workers=6) as ex:
                 for i, r in zip(again, ex.map(_one, again)):
                     impl[i] = r
     model = run_lines([DRIVER], ops, parallel=NCPU)
